@@ -340,10 +340,11 @@ Definition presplit (m : machine) (t : string) : result (string * list string) :
     else if negb (is_long_flag t) && Nat.ltb 2 (String.length t) then
       let h := take 2 t in
       let rest := drop 2 t in
-      match cur_ctx m with
-      | None => Err EAttr                       (* machine.context is None *)
-      | Some c =>
-          let have :=
+      (* machine.context is not None and token in machine.context.flags (repair e36c9e6) *)
+      let have :=
+        match cur_ctx m with
+        | None => false
+        | Some c =>
             match find_flag (rc_args c) h with
             | Some i =>
                 negb (pstate_eqb (m_st m) SUnknown) &&
@@ -352,22 +353,19 @@ Definition presplit (m : machine) (t : string) : result (string * list string) :
                 | None => false
                 end
             | None => false
-            end in
-          if have then Ok (h, [rest]) else Ok (h, dash_each rest)
-      end
+            end
+        end in
+      if have then Ok (h, [rest]) else Ok (h, dash_each rest)
     else Ok (t, [])
   else Ok (t, []).
 
-(** The roll-back decision. *)
+(** The roll-back decision ([subtoken_is_valid_flag] is False when there is no
+    current context, repair e36c9e6). *)
 Definition rollback (m : machine) (orig : string) (sp : string * list string)
   : result (string * list string) :=
   if waiting m then
-    match cur_ctx m with
-    | None => Err EAttr
-    | Some c =>
-        let optional := match flag_arg m with Some r => a_optional (r_spec r) | None => false end in
-        if optional && ctx_has_flag (Some c) (fst sp) then Ok sp else Ok (orig, [])
-    end
+    let optional := match flag_arg m with Some r => a_optional (r_spec r) | None => false end in
+    if optional && ctx_has_flag (cur_ctx m) (fst sp) then Ok sp else Ok (orig, [])
   else Ok sp.
 
 (** One iteration of [for index, token in enumerate(body)]: new machine and
@@ -376,6 +374,11 @@ Definition step (p : parser) (m : machine) (t : string) : result (machine * list
   bind (presplit m t) (fun sp =>
   bind (rollback m t sp) (fun sp =>
   bind (handle p (fst sp) m) (fun m' => Ok (m', snd sp)))).
+
+(** (Before repairs 401bc73 / e36c9e6 the token-splitting step raised
+    AttributeError when [machine.context] was None, and a failing [int()]
+    escaped as ValueError: findings F-C07b / F-C07a, now "fixed" in
+    KNOWN_FINDINGS.json; their witnesses stay in corpus/C07.) *)
 
 (** Fuel: the loop consumes one unit per token handled.  [None] = fuel
     exhausted (shown impossible for [body_fuel] in Proofs/C07_parser.v). *)
